@@ -2,10 +2,10 @@ package fam
 
 import (
 	"bytes"
-	"os"
 	"encoding/json"
 	"fmt"
 	"math/rand"
+	"os"
 
 	"github.com/beevik/etree"
 	saml2 "github.com/russellhaering/gosaml2"
